@@ -62,6 +62,7 @@ type Spec struct {
 	Units           []Unit            `json:"units"`
 	Native          []string          `json:"native_files"`
 	ParallelEntries int               `json:"parallel_entries"`
+	SQLSchema bool `json:"sql_schema"`
 }
 
 type KnownFinding struct {
